@@ -77,7 +77,12 @@ def template_source(prog, chk):
     w = R.field_writers(prog, "original_map", CTX)
     w = {k: v for k, v in w.items() if not k.endswith("::default")}
     ue_path = CTX + "::update_element"
-    chk.ob(set(w) == {ue_path}, "A10.original-map", "writers", "src/context.rs", "original_map is written only by update_element", f"original_map writers: {sorted(w)}")
+    if not w:
+        # no field of that name any more (the maps moved into a struct of their own): who writes the snapshot map is not
+        # decided by name
+        chk.undecided("A10.original-map", "writers", "src/context.rs", "no field `original_map` in TransformerContext: the snapshot map cannot be identified by name")
+    else:
+      chk.ob(set(w) == {ue_path}, "A10.original-map", "writers", "src/context.rs", "original_map is written only by update_element", f"original_map writers: {sorted(w)}")
     ue = prog.body(ue_path)
     chk.touch(ue)
     ins = R.calls_to(ue, lambda c: c.path.startswith("std::collections::HashMap") and c.path.endswith("::insert"))
@@ -107,10 +112,16 @@ def template_source(prog, chk):
                 true_t, false_t = R.switch_targets_bool(st)
                 ok = R.control_dependent_only_via(ue, ob, (sb, true_t)) and true_t != false_t
                 detail = "original_map.insert is reachable only through the is_none() == true edge of elem_map.insert"
-    chk.ob(ok, "A13.original-first-seen", "update_element", ue.where(), "the original (template) snapshot is stored only the first time an id is seen", "original_map.insert is not guarded by the first-seen test of elem_map.insert: " + detail)
+    if not (".elem_map" in by_field and ".original_map" in by_field):
+        chk.undecided("A13.original-first-seen", "update_element", ue.where(), f"the two inserts of update_element are not made on fields named elem_map / original_map ({detail}): which is the snapshot is not decided by name")
+    else:
+      chk.ob(ok, "A13.original-first-seen", "update_element", ue.where(), "the original (template) snapshot is stored only the first time an id is seen", "original_map.insert is not guarded by the first-seen test of elem_map.insert: " + detail)
     goe_b = prog.body(CTX + "::get_original_element")
     rd = R.field_readers(prog, "original_map", CTX)
-    chk.ob(
+    if not rd:
+        chk.undecided("A10.original-map", "get_original_element", goe_b.where(), "no field `original_map` to look for in get_original_element")
+    else:
+      chk.ob(
         goe_b.path in rd and "svgdx::context::TransformerContext::get_original_element" in rd and not R.place_reads(goe_b, (".elem_map",)),
         "A10.original-map",
         "get_original_element",
